@@ -205,7 +205,7 @@ def run(ctx):
     # ------------------------------------------------ fixed-step branch
     ev, ret, _, _ = fold_db(repo, adaptive=False)
     ctx.count("functions_folded")
-    v = ret[1][0] if ret[0] == "t" and len(ret[1]) == 2 else None
+    v = ret[1][0] if ret[0] == "t" and len(ret[1]) >= 2 else None  # (new temperature, new minimum step[, extras])
     want_v = T.add(beta, step)
     slack = None
     ok = False
@@ -238,7 +238,7 @@ def run(ctx):
     # ------------------------------------------------ adaptive branch
     ev, ret, _, _ = fold_db(repo, adaptive=True)
     ctx.count("functions_folded")
-    v = ret[1][0] if ret[0] == "t" and len(ret[1]) == 2 else None
+    v = ret[1][0] if ret[0] == "t" and len(ret[1]) >= 2 else None  # (new temperature, new minimum step[, extras])
     ok = False
     v_in, clamped = unclamp(v)
     # an additional snap to 1.0 (any condition) keeps beta' within (beta + min_step, 1]: what is snapped is still the floored value
